@@ -122,6 +122,36 @@ impl<C: Circuit<F>> Circuit<F> for SpyCircuit<'_, C> {
     }
 }
 
+/// The same circuit under the dual-pass `V1` floor planner (`floor_planner/v1.rs`): measurement
+/// pass on `without_witnesses()`, placement by a first-fit strategy, assignment pass.
+pub struct V1Circuit<'a, C: Circuit<F>> {
+    pub inner: &'a C,
+    /// the circuit with unknown witness (what `without_witnesses` must return)
+    pub unknown: &'a C,
+}
+
+impl<C: Circuit<F>> Circuit<F> for V1Circuit<'_, C> {
+    type Config = C::Config;
+    type FloorPlanner = midnight_proofs::circuit::floor_planner::V1;
+    type Params = C::Params;
+
+    fn without_witnesses(&self) -> Self {
+        V1Circuit { inner: self.unknown, unknown: self.unknown }
+    }
+    fn params(&self) -> Self::Params {
+        self.inner.params()
+    }
+    fn configure_with_params(meta: &mut ConstraintSystem<F>, params: Self::Params) -> Self::Config {
+        C::configure_with_params(meta, params)
+    }
+    fn configure(meta: &mut ConstraintSystem<F>) -> Self::Config {
+        C::configure(meta)
+    }
+    fn synthesize(&self, config: Self::Config, layouter: impl Layouter<F>) -> Result<(), Error> {
+        self.inner.synthesize(config, layouter)
+    }
+}
+
 pub struct SpyLayouter<L: Layouter<F>> {
     inner: L,
     log: Log,
